@@ -403,7 +403,12 @@ class SparseArray:
             return out[0]
         data, counts, axis, n_cols, arr_attrs = out
         result_fill_value = self.fill_value
-        if reduce_super_ufunc is None:
+        if n_cols == 0:
+            # nothing is reduced: every result is the identity of the operation
+            if method.identity is None:
+                raise ValueError(f"zero-size array to reduction operation {method.__name__} which has no identity")
+            result_fill_value = method.reduce(np.empty((0,), dtype=self.dtype), **kwargs)
+        elif reduce_super_ufunc is None:
             missing_counts = counts != n_cols
             data[missing_counts] = method(data[missing_counts], self.fill_value, **kwargs)
         else:
